@@ -54,6 +54,15 @@ def make_cases(tier, seed, groups):
             for d in range(1, maxd + 1):
                 cases.append({"group": "value", "fen": fen, "moves": ms, "specs": ["d%d" % d]})
                 cases.append({"group": "value", "fen": fen, "moves": ms, "specs": ["d%dx" % d]})
+    if "value" in groups:
+        # en-passant captures that uncover a line through the captured pawn's square (every direction, both colours): the position
+        # after the capture is a check the moved piece does not give (seeded change r8C12)
+        import positions as PP
+        epl = [f for fam, f in PP.line_geometry_families() if fam == "ep-line"][::4] + [f for _, f in PP.ep_discovered_check_families()]
+        step = max(1, len(epl) // (56 if tier == "quick" else 500))
+        for f in epl[seed % step::step]:
+            for sp in ("d1", "d1x", "d2x"):
+                cases.append({"group": "value", "fen": f, "moves": [], "specs": [sp]})
     if "material" in groups:
         # every small material signature, both sides to move: depth 2 (cache on and off), depth 3 on the even ones
         import positions as PP
